@@ -733,6 +733,14 @@ func checkRange(c rc) {
 					okRev = true
 				}
 			}
+			if !okRev {
+				// ... or the slice Range produced, reversed in place by RangeRight's own two-pointer swap loop
+				if ex, ok := path.Strip(rt.Results[0]).(*ssa.Extract); ok && ex.Tuple == ssa.Value(call) && ex.Index == 0 {
+					if sw, lp := reversesInPlace(c, rr, ex); sw && lp {
+						okRev = true
+					}
+				}
+			}
 			c.ob("PV1", rname, "result is the reverse of Range's", p.InstrPos(rt), okRev && path.IsNil(rt.Results[1]), "on success RangeRight must return Reverse(the slice Range produced) and no error")
 		default:
 			c.ob("ER2", rname, "return decided by Range's error", p.InstrPos(rt), false, "a return of RangeRight is not dominated by a test of Range's error")
